@@ -141,7 +141,22 @@ def p_C16(res, facts, tier):
     ribbon.check_sizing(res, facts, 'C16')
 
 
+def p_C17(res, facts, tier):
+    from .rules import panic, dds
+    panic.check_panics(res, facts)
+    # liveness of the timed envelope phases (increment >= 1, roll-over detection sound)
+    dds.check_tick(res, facts, 'C02')
+    dds.check_pa_methods(res, facts, dds.LFO, 'C11')
+
+
+def p_C20(res, facts, tier):
+    from .rules import clamp
+    clamp.check_clamps(res, facts, tier)
+
+
 PROPS = {
+    'C20': dict(fn=p_C20, level='proof', explanation='Each clamping conversion is evaluated on the partition {below, inside, above, NaN} of all f32 inputs (+-inf included in the outer parts): result is the bound / the input / the bound / a bound; Note and channel clamps on {<= limit, > limit}; the newtypes are constructed only inside their validating constructors (or from in-range constants) and their field is private; the envelope stores exactly the converted value. Thorough tier adds compile-fail witnesses (private constructor / field).'),
+    'C17': dict(fn=p_C17, level='proof', explanation='Every public entry point of the six modules is analysed from the most general abstract pre-state satisfying its class invariant over the documented argument ranges (incl. NaN/inf where stated, parser-state x byte-class partitions for MIDI); every Assert terminator and explicit panic met becomes an obligation, all are discharged; class invariants are re-established on every post-state; all reachable Assert sites are visited (coverage floor); every loop is driven by a bounded iterator; timed envelope phases end (increment >= 1 and exact roll-over detection).'),
     'C15': dict(fn=p_C15, level='proof', explanation='Effect summary of poll() over (in range?) x (settling count reached?) x (buffer full?) x (pressing, just_pressed, just_released): every out-of-range path releases, zeroes both progress counters and latches the release edge; in-range paths advance the counters by one (saturating), store the sample iff settled, and raise the press exactly when the fill counter reaches the capacity; getters return and clear. The run-length statement follows by induction on the counters.'),
     'C16': dict(fn=p_C16, level='other', explanation='current_val is written only in the buffer-full block as E(a), a = sum(take(oldest_ordered(buffer after this write), N-discard))/(N-discard) (container terms), retained on every other path; value() = current_val/boundary; E is monotone with 0 <= E(a) <= a on the parameter box; counters restart after every out-of-range sample so no earlier press contributes; constructor discard count agrees with the capacity helper (N = main+discard+1). heapless ring order is trusted; the exact f32 mean is not decided.'),
     'C13': dict(fn=p_C13, level='proof', explanation='For the constructor and for set_time over a partition of t in [0,inf) that carries the cutoff/sample-rate relation exactly (t=0; t=tau/fs; t=1/(u*fs), u=f0/fs<=1/4; t>=10 s), the coefficient terms produced by the dependency design (its own MIR) are, after clearing the common denominator, a convex combination: b0,b1,-a1 >= 0, sum 1, pole -a1 < 1, a2=b2=0; process() is the five-term recurrence on (input, previous input, previous output) and set_time touches nothing but the coefficients. Hence no overshoot/ringing for any history and contraction for constant input, over the reals.'),
